@@ -49,7 +49,7 @@ func (x *ifaceRun) bfsKey(scratch []byte) (bfsKey, []byte) {
 	buf = append(buf, byte(len(x.snapDigest)), b2b(x.jl > 0))
 	cp := x.r.sdb.Copy()
 	cp.Finalise(true)
-	buf = observeDB(cp, cp.GetLogs(txHash(x.r.tx), blockHash(x.r.block)), false, &x.committed, buf)
+	buf = observeDB(cp, cp.GetLogs(txHash(x.r.tx), blockHash(x.r.block)), false, nil, buf)
 	h1 := fnv.New64a()
 	h1.Write(buf)
 	h2 := fnv.New64()
